@@ -401,7 +401,7 @@ def main(tier):
     sub7 = core.Report("C07", level="other", rules=c07.RULES, tier=tier)
     st7 = {"sites": 0}
     ii7 = prog.cls("iindexes", "iindex")
-    for fi7 in [f for n7, f in ii7.methods.items() if n7 not in ("__init__",)] + [prog.func("iindexes", "column_stack")]:
+    for fi7 in [f for n7, f in ii7.methods.items() if n7 not in ("__init__",) and not (n7.startswith("_") and not n7.startswith("__"))] + [prog.func("iindexes", "column_stack")]:
         c07.analyse_root(prog, fi7, sub7, st7)
     k7 = 0
     for o in sub7.obls:
